@@ -483,6 +483,10 @@ def autoforwards_hint(func, args, kwargs):
 
 _in_progress = threading.local()
 
+# how many times a function may be re-entered with different known arguments
+# (a callback applied to itself) before its forwarding is deemed recursive
+_MAX_REENTRY = 8
+
 
 def _discovery_key(func, args, kwargs):
     def ident(value):
@@ -498,9 +502,11 @@ def autoforwards_ast(func, func_ast, sig, args=(), kwargs={}):
     except AttributeError:
         in_progress = _in_progress.keys = []
     key = _discovery_key(func, args, kwargs)
-    if key in in_progress:
-        # func ends up forwarding to itself with the same arguments:
-        # following the calls any further would never end
+    if (
+            key in in_progress
+            or sum(1 for k in in_progress if k[0] == key[0]) >= _MAX_REENTRY):
+        # func ends up forwarding to itself, with the same arguments or with
+        # ever different ones: following the calls any further would never end
         raise UnknownForwards('Recursive forwarding of *args, **kwargs')
     in_progress.append(key)
     try:
